@@ -58,8 +58,11 @@ func instreamFineSediment(upstreamMass, lateralMass, reachLocalMass, reachVolume
 	loadDownstream, loadToFloodplain, loadToChannelDeposition, floodplainDepositionFraction, channelDepositionFraction data.ND1Float64) (float64, float64) {
 
 	if bankFullFlow <= 1e-8 {
+		lateralAndLocalMass := data.NewArray1DFloat64(lateralMass.Len1())
+		data.AddToFloat64Array(lateralAndLocalMass, lateralMass)
+		data.AddToFloat64Array(lateralAndLocalMass, reachLocalMass)
 		totalStoredMass = LumpedConstituentTransport(
-			upstreamMass, lateralMass, outflow, reachVolume,
+			upstreamMass, lateralAndLocalMass, outflow, reachVolume,
 			totalStoredMass,
 			0, 0.0, durationInSeconds,
 			loadDownstream,nil)
